@@ -75,6 +75,8 @@ def judge(case, ibc, answers):
     m = decode(answers[0])
     if not (m['tfree'] and m['rclear']):
         return probs
+    if any(Fraction(x) < 0 for row in case['M'] for x in row):
+        return probs      # negative entries: outside the property's domain (matrices from count matrices)
     import math
     for cfg, r in ibc.items():
         def P(kind, what):
